@@ -54,19 +54,21 @@ type SysWorld struct {
 	seed        int64
 	reqSeq      int
 	recs        map[*Task]*simRecorder
+	startPush   bool
 }
 
 type SysOptions struct {
 	OnStore   func(ss *SimStore)
 	Seed      int64
 	SimDisk   bool // SQLite on the simulated disk (crash worlds)
+	StartPush bool // start the push dispatcher (its workers are adopted as tasks); only worlds that schedule them need it
 	ArmPoints func(label string) bool
 }
 
 var errInjected = errors.New("injected store fault")
 
 func NewSysWorld(spec *SysSpec, offset int64, opts SysOptions) (*SysWorld, error) {
-	w := &SysWorld{Spec: spec, Res: &Result{}, storeFaults: map[string]int{}, armedStore: map[string]bool{}, seed: opts.Seed, OnStore: opts.OnStore}
+	w := &SysWorld{Spec: spec, Res: &Result{}, storeFaults: map[string]int{}, armedStore: map[string]bool{}, seed: opts.Seed, OnStore: opts.OnStore, startPush: opts.StartPush}
 	base, err := ScratchDir("sys-")
 	if err != nil {
 		return nil, err
@@ -149,7 +151,13 @@ func (w *SysWorld) startNode(dbDir string, simDisk bool) error {
 			w.Admin = s.Handler
 		}
 	}
-	if node.Push != nil {
+	// Worlds that never let a dispatcher worker run do not start the dispatcher:
+	// its goroutines would sit parked for the rest of the process, and every look
+	// at goroutine states (blocked-task detection) pays for each of them.
+	if node.Push != nil && !w.startPush {
+		node.Workers = 0
+	}
+	if node.Push != nil && w.startPush {
 		// jitter draws come from the global math/rand source; re-seed it so that
 		// they are a function of the run seed (go:debug randseednop=0 in the test main)
 		node.Push.Start()
